@@ -204,17 +204,22 @@ def run(ck):
         elif how == "close":
             w.close()
         else:
-            variant = ck.rng.choice(["other_id", "same_id_extra_dims", "same_id_extra_type"])
+            variant = ck.rng.choice(["other_id", "same_id_extra_dims", "same_id_extra_type", "same_object_mutated"])
             ck.count("wrong_format:" + variant)
             inp["variant"] = variant
-            if variant == "other_id":
+            if variant == "same_object_mutated":
+                # the LasData whose points were just written gains an extra dimension: its point format object is the same
+                # object as before, mutated in place; its records are now longer
+                las.add_extra_dim(laspy.ExtraBytesParams("added_later", "u2"))
+                pf = None
+            elif variant == "other_id":
                 ofmt = ck.rng.choice([x for x in range(11) if x != fmt])
                 pf = laspy.PointFormat(ofmt)
             else:
                 # same point format id, different extra dimensions: a different point format (record length / layout)
                 pf = laspy.PointFormat(fmt)
                 pf.add_extra_dimension(laspy.ExtraBytesParams("other", "u1" if variant == "same_id_extra_dims" else "f8"))
-            other = laspy.PackedPointRecord.zeros(2, pf)
+            other = laspy.PackedPointRecord.zeros(2, pf) if pf is not None else las.points[:2]
         before = buf.getvalue()
         for chunk, label in ((other if other is not None else las.points[:1], "non-empty"), (las.points[0:0], "empty")):
             raised = None
